@@ -656,6 +656,34 @@ func (a *Agent) handleUDPOpenErr(peerID identity.AgentID, frame *protocol.Frame)
 
 // handleUDPDatagram processes a UDP_DATAGRAM frame.
 func (a *Agent) handleUDPDatagram(peerID identity.AgentID, frame *protocol.Frame) {
+	// Relay entries are keyed by (peer, stream ID) and are consulted first:
+	// the local endpoints below are keyed by the bare stream ID, which every
+	// neighbour numbers independently, so a relayed datagram of one peer must
+	// not be mistaken for traffic of another peer's local association.
+	relayUp, relayDown := a.udpRelay.LookupBoth(frame.StreamID, peerID)
+
+	if relayUp != nil && peerID == relayUp.UpstreamPeer {
+		// Forward downstream
+		fwdFrame := &protocol.Frame{
+			Type:     protocol.FrameUDPDatagram,
+			StreamID: relayUp.DownstreamID,
+			Payload:  frame.Payload,
+		}
+		a.peerMgr.SendToPeer(relayUp.DownstreamPeer, fwdFrame)
+		return
+	}
+
+	if relayDown != nil && peerID == relayDown.DownstreamPeer {
+		// Forward upstream
+		fwdFrame := &protocol.Frame{
+			Type:     protocol.FrameUDPDatagram,
+			StreamID: relayDown.UpstreamID,
+			Payload:  frame.Payload,
+		}
+		a.peerMgr.SendToPeer(relayDown.UpstreamPeer, fwdFrame)
+		return
+	}
+
 	// Check if this is for our UDP handler (exit node receiving from mesh)
 	if a.udpHandler != nil {
 		if assoc := a.udpHandler.GetAssociation(frame.StreamID); assoc != nil {
@@ -716,43 +744,14 @@ func (a *Agent) handleUDPDatagram(peerID identity.AgentID, frame *protocol.Frame
 		}
 		return
 	}
-
-	// Check if this is a relay. Relay entries are immutable once inserted,
-	// so reading entry fields after LookupBoth returns is safe even though
-	// the entry could be removed concurrently.
-	relayUp, relayDown := a.udpRelay.LookupBoth(frame.StreamID, peerID)
-
-	if relayUp != nil && peerID == relayUp.UpstreamPeer {
-		// Forward downstream
-		fwdFrame := &protocol.Frame{
-			Type:     protocol.FrameUDPDatagram,
-			StreamID: relayUp.DownstreamID,
-			Payload:  frame.Payload,
-		}
-		a.peerMgr.SendToPeer(relayUp.DownstreamPeer, fwdFrame)
-		return
-	}
-
-	if relayDown != nil && peerID == relayDown.DownstreamPeer {
-		// Forward upstream
-		fwdFrame := &protocol.Frame{
-			Type:     protocol.FrameUDPDatagram,
-			StreamID: relayDown.UpstreamID,
-			Payload:  frame.Payload,
-		}
-		a.peerMgr.SendToPeer(relayDown.UpstreamPeer, fwdFrame)
-	}
 }
 
 // handleUDPClose processes a UDP_CLOSE frame.
 func (a *Agent) handleUDPClose(peerID identity.AgentID, frame *protocol.Frame) {
-	// Check if this is for our UDP handler (exit node)
-	if a.udpHandler != nil {
-		a.udpHandler.HandleUDPClose(peerID, frame.StreamID)
-	}
-
-	// Check if this is a relay - PopMatchingPeer atomically looks up,
-	// peer-disambiguates direction, and removes the entry under one Lock.
+	// Check if this is a relay first (keyed by (peer, stream ID); the local
+	// endpoints below are keyed by the bare stream ID) - PopMatchingPeer
+	// atomically looks up, peer-disambiguates direction, and removes the
+	// entry under one Lock.
 	if entry, fromUpstream := a.udpRelay.PopMatchingPeer(frame.StreamID, peerID); entry != nil {
 		var dstPeer identity.AgentID
 		var dstID uint64
@@ -769,6 +768,12 @@ func (a *Agent) handleUDPClose(peerID identity.AgentID, frame *protocol.Frame) {
 			Payload:  frame.Payload,
 		}
 		a.peerMgr.SendToPeer(dstPeer, fwdFrame)
+		return
+	}
+
+	// Check if this is for our UDP handler (exit node)
+	if a.udpHandler != nil {
+		a.udpHandler.HandleUDPClose(peerID, frame.StreamID)
 	}
 
 	// Check if this is for our ingress via exit stream lookup
